@@ -88,6 +88,9 @@ pub use crate::transport_error::{Code as TransportErrorCode, Error as TransportE
 
 pub mod congestion;
 
+#[cfg(feature = "verif-hooks")]
+pub mod verif;
+
 mod cid_generator;
 pub use crate::cid_generator::{
     ConnectionIdGenerator, HashedConnectionIdGenerator, InvalidCid, RandomConnectionIdGenerator,
